@@ -18,10 +18,11 @@ def run(run, tier, seed):
     run.add_design(d)
     events = lodrv.indel_events(run, tier, seed + 18, "c18")
     c17.finish(run, events, "c18", tier)
-    planted, reported = run.extra["indels_planted"], run.extra["indels_reported"]
-    if planted >= 10 and reported * 10 < planted * 9:
-        run.fail({"kind": "completeness", "planted": planted, "reported": reported},
-                 "only %d of %d planted indels were reported (< 90%%)" % (reported, planted))
+    for label, pk, rk in (("generic", "indels_planted", "indels_reported"), ("tandem", "tandem_indels_planted", "tandem_indels_reported")):
+        planted, reported = run.extra[pk], run.extra[rk]
+        if planted >= 10 and reported * 10 < planted * 9:
+            run.fail({"kind": "completeness", "stratum": label, "planted": planted, "reported": reported},
+                     "only %d of %d planted %s indels were reported (< 90%%)" % (reported, planted, label))
 
 
 def replay(run, path):
